@@ -19,7 +19,7 @@ package client
 //@   opaque (*Table).Put
 //@   callsite[C01,C05,C08,C13] (*Client).getTable: arg.tableName == old(input.TableName == nil ? "" : *input.TableName)
 //@   callsite[C01,C05,C08,C13] mapDynamoToTypesPutItemInput: arg.input == input
-//@   callsite[C01,C05,C08,C13] (*Table).Put: arg.t == table && arg.input != nil && arg.input.ConditionExpression == old(input.ConditionExpression) && arg.input.ExpressionAttributeNames == old(input.ExpressionAttributeNames) &&
+//@   callsite[C01,C05,C08,C13] (*Table).Put: arg.t == fd.tables[old(input.TableName == nil ? "" : *input.TableName)] && arg.input != nil && arg.input.ConditionExpression == old(input.ConditionExpression) && arg.input.ExpressionAttributeNames == old(input.ExpressionAttributeNames) &&
 //@                dom(arg.input.Item) == old(dom(input.Item)) && dom(arg.input.ExpressionAttributeValues) == old(dom(input.ExpressionAttributeValues))
 //@   ensures[C15] old(fd.forceFailureErr) != nil ==> result1 == old(fd.forceFailureErr) && unchangedAll()
 //@ func (*Client).DeleteItem
@@ -27,7 +27,7 @@ package client
 //@   opaque (*Table).Delete
 //@   callsite[C01,C05,C08,C13] (*Client).getTable: arg.tableName == old(input.TableName == nil ? "" : *input.TableName)
 //@   callsite[C01,C05,C08,C13] mapDynamoToTypesDeleteItemInput: arg.input == input
-//@   callsite[C01,C05,C08,C13] (*Table).Delete: arg.t == table && arg.input != nil && arg.input.ConditionExpression == old(input.ConditionExpression) &&
+//@   callsite[C01,C05,C08,C13] (*Table).Delete: arg.t == fd.tables[old(input.TableName == nil ? "" : *input.TableName)] && arg.input != nil && arg.input.ConditionExpression == old(input.ConditionExpression) &&
 //@                dom(arg.input.Key) == old(dom(input.Key)) && dom(arg.input.ExpressionAttributeValues) == old(dom(input.ExpressionAttributeValues))
 //@   ensures[C15] old(fd.forceFailureErr) != nil ==> result1 == old(fd.forceFailureErr) && unchangedAll()
 //@ func (*Client).UpdateItem
@@ -35,13 +35,13 @@ package client
 //@   opaque (*Table).Update
 //@   callsite[C01,C05,C08,C13] (*Client).getTable: arg.tableName == old(input.TableName == nil ? "" : *input.TableName)
 //@   callsite[C01,C05,C08,C13] mapDynamoToTypesUpdateItemInput: arg.input == input
-//@   callsite[C01,C05,C08,C13] (*Table).Update: arg.t == table && arg.input != nil && arg.input.ConditionExpression == old(input.ConditionExpression) && arg.input.ExpressionAttributeNames == old(input.ExpressionAttributeNames) &&
+//@   callsite[C01,C05,C08,C13] (*Table).Update: arg.t == fd.tables[old(input.TableName == nil ? "" : *input.TableName)] && arg.input != nil && arg.input.ConditionExpression == old(input.ConditionExpression) && arg.input.ExpressionAttributeNames == old(input.ExpressionAttributeNames) &&
 //@                (old(input.UpdateExpression) != nil ==> arg.input.UpdateExpression == old(*input.UpdateExpression)) && dom(arg.input.Key) == old(dom(input.Key)) && dom(arg.input.ExpressionAttributeValues) == old(dom(input.ExpressionAttributeValues))
 //@   ensures[C15] old(fd.forceFailureErr) != nil ==> result1 == old(fd.forceFailureErr) && unchangedAll()
 //@ func (*Client).GetItem
 //@   partial
 //@   callsite[C01,C13] (*Client).getTable: arg.tableName == old(input.TableName == nil ? "" : *input.TableName)
-//@   callsite[C01,C13] keySchema.GetKey: arg.ks == table.KeySchema && arg.attrs == table.AttributesDef && dom(arg.item) == old(dom(input.Key))
+//@   callsite[C01,C13] keySchema.GetKey: arg.ks == fd.tables[old(input.TableName == nil ? "" : *input.TableName)].KeySchema && arg.attrs == fd.tables[old(input.TableName == nil ? "" : *input.TableName)].AttributesDef && dom(arg.item) == old(dom(input.Key))
 //@   ensures[C15] old(fd.forceFailureErr) != nil ==> result1 == old(fd.forceFailureErr) && unchangedAll()
 //@ func (*Client).Query
 //@   partial
@@ -50,7 +50,7 @@ package client
 // callee's parameter p; SearchData itself is C02/C04's subject in package core and is opaque here)
 //@   opaque (*Table).SearchData
 //@   callsite[C02,C04,C17] (*Client).getTable: arg.tableName == old(input.TableName == nil ? "" : *input.TableName)
-//@   callsite[C02,C04,C17] (*Table).SearchData: arg.t == table && !arg.input.Scan && !arg.input.started && arg.input.ConditionExpression == nil &&
+//@   callsite[C02,C04,C17] (*Table).SearchData: arg.t == fd.tables[old(input.TableName == nil ? "" : *input.TableName)] && !arg.input.Scan && !arg.input.started && arg.input.ConditionExpression == nil &&
 //@                arg.input.Index == old(input.IndexName == nil ? "" : *input.IndexName) &&
 //@                arg.input.ScanIndexForward == (old(input.ScanIndexForward) == nil || old(*input.ScanIndexForward)) &&
 //@                arg.input.KeyConditionExpression == old(input.KeyConditionExpression == nil ? "" : *input.KeyConditionExpression) &&
@@ -61,7 +61,7 @@ package client
 //@   ensures[C15] old(fd.forceFailureErr) != nil ==> result1 == old(fd.forceFailureErr) && unchangedAll()
 //@   opaque (*Table).SearchData
 //@   callsite[C02,C04,C17] (*Client).getTable: arg.tableName == old(input.TableName == nil ? "" : *input.TableName)
-//@   callsite[C02,C04,C17] (*Table).SearchData: arg.t == table && arg.input.Scan && arg.input.ScanIndexForward && !arg.input.started && arg.input.ConditionExpression == nil &&
+//@   callsite[C02,C04,C17] (*Table).SearchData: arg.t == fd.tables[old(input.TableName == nil ? "" : *input.TableName)] && arg.input.Scan && arg.input.ScanIndexForward && !arg.input.started && arg.input.ConditionExpression == nil &&
 //@                arg.input.KeyConditionExpression == "" && arg.input.Index == old(input.IndexName == nil ? "" : *input.IndexName) &&
 //@                arg.input.FilterExpression == old(input.FilterExpression == nil ? "" : *input.FilterExpression) &&
 //@                arg.input.Limit == old(input.Limit == nil ? 0 : *input.Limit) && arg.input.Aliases == old(input.ExpressionAttributeNames)
@@ -306,7 +306,7 @@ package client
 //@   partial
 //@   requires typeis(client, "*Client") ==> client.(*Client) != nil && forall n string :: {client.(*Client).tables[n]} n in client.(*Client).tables ==> client.(*Client).tables[n] != nil &&
 //@            (forall m string :: {client.(*Client).tables[n].Indexes[m]} m in client.(*Client).tables[n].Indexes ==> client.(*Client).tables[n].Indexes[m] != nil)
-//@   callsite[C18] (*Table).Clear: arg.t == table
+//@   callsite[C18] (*Table).Clear: arg.t == client.(*Client).tables[tableName]
 //@   callsite[C18] (*index).Clear: arg.i == index
 
 // an error stays an error through the error mapper
